@@ -486,6 +486,12 @@ def gen_task_aware_case(rng, force_dir=None):
         for k in rng.sample(range(0, 7), rng.randint(1, 4)):
             blocked.append([t['id'], d0 + k if fwd else d0 - 1 - k])
     c['task_aware'] = blocked
+    # overtime: days without calendar capacity (the week ends around the bound) opened for one leaf each
+    opened = []
+    for t in rng.sample(leaves, min(len(leaves), rng.randint(0, 2))):
+        for k in range(0, 9):
+            opened.append([t['id'], d0 + k if fwd else d0 - 1 - k])
+    c['task_aware_open'] = opened
     return c
 
 
